@@ -83,6 +83,10 @@ Predicted(e, d, m) ==
     [] e.op = "SaveABCI"    -> SaveABCISteps(e.a)
     [] e.op = "ApplyBlock"  -> LET s == SaveSteps(cfg, e.a, e.b, e.c) IN
                                [steps |-> SaveABCISteps(e.a).steps \o s.steps, res |-> s.res]
+    \* restart after a crash between the application's Commit and Save: the stored block is applied
+    \* again with the persisted ABCI responses (consensus/replay.go, mock app): same writes
+    [] e.op = "Recover"     -> LET s == SaveSteps(cfg, e.a, e.b, e.c) IN
+                               [steps |-> SaveABCISteps(e.a).steps \o s.steps, res |-> s.res]
     [] e.op = "Bootstrap"   -> IF "block" \in cfg.chk
                                THEN [steps |-> BootstrapSteps(cfg, e.a, e.b).steps \o SaveSeenCommitSteps(e.a).steps,
                                      res |-> "ok"]
